@@ -12,7 +12,7 @@ func init() {
 	probeNames["C11"] = []string{"conservation_checked", "probe_zero", "commit_ok", "tx_aborted", "commit_failed", "out_of_memory", "reopen", "meta_grew", "file_full_cycle", "prealloc", "continued_after_crash_recovery", "big_free_region_preset", "reopen_with_bigger_limit"}
 	register(&PropDef{
 		ID: "C11", Level: "exploration", QuickSec: 50, ThoroSec: 900,
-		Rule: "each run = one long seeded alloc/free history (20-150 transactions quick, up to 600 thorough; fill-to-out-of-space and free cycles, rollbacks, failed commits, overwrites, reopen) on a size-bounded configuration (max size, page size, init meta area, prealloc) on which no transaction enables the overflow area. At every quiescent point: capacity probe (allocate one page at a time until OutOfMemory, roll back) + live pages (model) + meta area + 2 header pages == max pages; the allocator snapshot covers [2,end) without gaps (no leaked page) and meta accounting adds up; the simulated file never exceeded max size; FileStats (DataAllocated, MetaArea, MetaAllocated) equal model/snapshot, also right after reopen. Non-trivial = run that reached out-of-space at least once and continued; distinct = op list + config + schedule hash.",
+		Rule: "each run = one long seeded alloc/free history (20-150 transactions quick, up to 600 thorough; fill-to-out-of-space and free cycles, rollbacks, failed commits, overwrites, reopen, and reopens that raise the limit through FlagUpdMaxSize, also to values that are no page multiple) on a size-bounded configuration (max size, page size, init meta area, prealloc) on which no transaction enables the overflow area. At every quiescent point: capacity probe (allocate one page at a time until OutOfMemory, roll back) + live pages (model) + meta area + 2 header pages == max pages; the allocator snapshot covers [2,end) without gaps (no leaked page) and meta accounting adds up; the simulated file never exceeded max size; FileStats (DataAllocated, MetaArea, MetaAllocated) equal model/snapshot, also right after reopen. Non-trivial = run that reached out-of-space at least once and continued; distinct = op list + config + schedule hash.",
 		Real: defaultReal, Stub: defaultStub, Assume: defaultAssume,
 		Body: c11Body,
 	})
